@@ -545,25 +545,28 @@ def r1010(ck, prog, cfg, rid):
     for f in cands:
         n += 1
         extra = []
-        for b in sorted(f.reachable_blocks()):
-            t = f.term(b)
-            if t["k"] == "switch":
-                si = switch_info(f, b)
-                src = si["src"] if si else None
-                if not (si and si["kind"] == "discr" and src is not None and src.kind == "call" and is_callee(src.term, r"Try>::branch$")):
-                    extra.append("branch at line %s" % t["ln"])
-        for b, i, st in f.stmts():
-            if st["lhs"] == {"l": 0} and st["rv"]["k"] == "agg" and "None" in str(st["rv"].get("n", "")):
-                extra.append("`None` at line %s" % st["ln"])
-        calls = [callee(t) or "" for _, t in f.calls()]
-        other = [c for c in calls if not re.search(r"strip_prefix|strip_suffix|Try>::branch$|FromResidual<.*>>::from_residual$|from_str_radix$|Result::<u64, .*>::ok$|result::Result::<.*>::ok$|Deref>::deref$", c)]
+        bodies = prog.with_children(f)          # `.and_then(|rest| rest.strip_suffix(..))`: the steps may sit in closures
+        for g in bodies:
+            for b in sorted(g.reachable_blocks()):
+                t = g.term(b)
+                if t["k"] == "switch":
+                    si = switch_info(g, b)
+                    src = si["src"] if si else None
+                    if not (si and si["kind"] == "discr" and src is not None and src.kind == "call" and is_callee(src.term, r"Try>::branch$")):
+                        extra.append("branch at line %s" % t["ln"])
+            for b, i, st in g.stmts():
+                if st["lhs"] == {"l": 0} and st["rv"]["k"] == "agg" and "None" in str(st["rv"].get("n", "")):
+                    extra.append("`None` at line %s" % st["ln"])
+        allcalls = [(g, t) for g in bodies for _, t in g.calls()]
+        calls = [callee(t) or "" for _, t in allcalls]
+        other = [c for c in calls if not re.search(r"strip_prefix|strip_suffix|Try>::branch$|FromResidual<.*>>::from_residual$|from_str_radix$|Result::<u64, .*>::ok$|result::Result::<.*>::ok$|Deref>::deref$|Option::<.*>::and_then(::<.*>)?$", c)]
         ck.check(not extra and not other, rid, "%s:rejects-only-foreign-names%s" % (f.short, _tag(cfg)),
                  "%s rejects a file name for more than a missing prefix/suffix or unparsable digits (%s): a file the writer created under a longer "
                  "(or otherwise valid) name is skipped by recovery with all its intact entries, and the start-up scan can reuse its sequence "
                  "number and overwrite it" % (f.short, "; ".join(extra + ["calls " + c.rsplit("::", 1)[-1] for c in other])[:200]), f.where(),
                  detail="strip_prefix? strip_suffix? from_str_radix.ok()")
-        pre = [str(t["args"][1].get("pv") or t["args"][1].get("c")).strip('"').replace("const ", "") for _, t in f.calls() if is_callee(t, r"strip_prefix|strip_suffix") and len(t["args"]) > 1]
-        radix = [str(t["args"][1].get("c", "")) for _, t in f.calls() if is_callee(t, r"from_str_radix$")]
+        pre = [str(t["args"][1].get("pv") or t["args"][1].get("c")).strip('"').replace("const ", "") for _, t in allcalls if is_callee(t, r"strip_prefix|strip_suffix") and len(t["args"]) > 1]
+        radix = [str(t["args"][1].get("c", "")) for _, t in allcalls if is_callee(t, r"from_str_radix$")]
         n += 1
         agree = bool(wr) and all(p_.strip('"') in lits for p_ in pre) and len(pre) == 2 and ((radix == ["16_u32"] or radix == ["const 16_u32"]) == hexfmt)
         ck.check(agree, rid, "%s:writer-agreement%s" % (f.short, _tag(cfg)),
